@@ -52,7 +52,9 @@ def bounds(tier):
     return {"shard_counts": [1, 2, 3, 4], "replicate": [1, 2, 3], "depth": 2, "deviation_bound": 1 if tier == "quick" else 2}
 
 
-def PDT(unit):
+def PDT(unit, pi=None):
+    if pi is not None and unit.get("pdtypes"):
+        return common.dtype_of(unit["pdtypes"][pi])  # mixed-precision parameter group
     return common.dtype_of(unit["cfg_kw"].get("pdtype", "f32"))
 
 
@@ -101,6 +103,12 @@ def work(tier, seed):
                 units.append({"kind": "hybrid", "pset": PSETS[0], "R": R, "S": S, "g": -1, "comm": comm, "cp": cp, "cfg_kw": opt_cfgs()[1], "hists": h2[:: (7 if tier == "quick" else 1)], "seed": seed, "perturb": True})
             for names in (["dp_replicate", "dp_shard"], None):
                 units.append({"kind": "hybrid", "pset": PSETS[0], "R": R, "S": S, "g": -1, "comm": "FP32", "cp": cp, "cfg_kw": opt_cfgs()[0], "hists": h2[:: (21 if tier == "quick" else 5)], "seed": seed, "mesh_names": names})
+    # mixed-precision parameter group (first parameter bfloat16, the others float32) with DEFAULT / FP32 communication: the
+    # float32 shards must not be rounded by the communication
+    for (R, S) in [(2, 1), (2, 2)]:
+        for comm, cp in itertools.product(["DEFAULT", "FP32"], [False, True]):
+            for pdt in (["bf16", "f32", "f32"], ["f32", "bf16", "f32"]):
+                units.append({"kind": "hybrid", "pset": PSETS[0], "R": R, "S": S, "g": -1, "comm": comm, "cp": cp, "cfg_kw": opt_cfgs()[1], "hists": h2[:: (9 if tier == "quick" else 2)], "seed": seed, "pdtypes": pdt})
     for S in (2, 3):
         units.append({"kind": "fully", "pset": PSETS[0], "S": S, "cfg_kw": opt_cfgs()[1], "hists": h2[:: (7 if tier == "quick" else 1)], "seed": seed, "perturb": True})
         units.append({"kind": "fully", "pset": PSETS[0], "S": S, "cfg_kw": opt_cfgs()[0], "hists": h2[::21], "seed": seed, "mesh_names": None})
@@ -127,7 +135,7 @@ def local_twin(unit, srank, hist):
     cfg = seq.cfg_with(**dict(dict(shapes=shapes, max_dim=3, merge=True, seed=seed), **unit["cfg_kw"]))
     params = []
     for (pi, a, b), s in zip(idx, shapes):
-        full = torch.tensor(seq.init_param(pi, tuple(unit["pset"][pi]), seed), dtype=PDT(unit)).reshape(unit["pset"][pi])
+        full = torch.tensor(seq.init_param(pi, tuple(unit["pset"][pi]), seed), dtype=PDT(unit, pi)).reshape(unit["pset"][pi])
         params.append(torch.nn.Parameter(full[a:b].clone()))
     _, opt = seq.build(cfg, params=params)
     if unit["kind"] == "hybrid":
@@ -155,7 +163,7 @@ def local_twin(unit, srank, hist):
                 for p in params:
                     p.mul_(0.5)
         for (pi, a, b), p in zip(idx, params):
-            g = torch.tensor(seq.grad_value(pi, t, tuple(unit["pset"][pi]), seed), dtype=PDT(unit)).reshape(unit["pset"][pi])
+            g = torch.tensor(seq.grad_value(pi, t, tuple(unit["pset"][pi]), seed), dtype=PDT(unit, pi)).reshape(unit["pset"][pi])
             p.grad = g[a:b].clone() if mask[pi] else None
         opt.step()
         loc = {pi: p.detach().clone() for (pi, _, _), p in zip(idx, params)}
@@ -191,7 +199,7 @@ def program(unit, hist):
 
         params = []
         for pi, shp in enumerate(unit["pset"]):
-            full = torch.tensor(seq.init_param(pi, tuple(shp), seed), dtype=PDT(unit)).reshape(shp)
+            full = torch.tensor(seq.init_param(pi, tuple(shp), seed), dtype=PDT(unit, pi)).reshape(shp)
             params.append(torch.nn.Parameter(mk(full, shp)))
         cfg = seq.cfg_with(**dict(dict(shapes=[[1]], max_dim=3, merge=True, seed=seed), **unit["cfg_kw"]))
         opt = DistributedShampoo(params, distributed_config=dc, **seq.ctor_kwargs(cfg))
@@ -202,7 +210,7 @@ def program(unit, hist):
                     for p in params:
                         p.to_local().mul_(0.5)
             for pi, (p, shp) in enumerate(zip(params, unit["pset"])):
-                g = torch.tensor(seq.grad_value(pi, t, tuple(shp), seed), dtype=PDT(unit)).reshape(shp)
+                g = torch.tensor(seq.grad_value(pi, t, tuple(shp), seed), dtype=PDT(unit, pi)).reshape(shp)
                 p.grad = mk(g, shp) if mask[pi] else None
             opt.step()
             out.append({pi: p.to_local().detach().clone() for pi, p in enumerate(params)})
@@ -237,7 +245,7 @@ def run_case(unit, hist, choices=(), bound=None):
     W = S if unit["kind"] == "fully" else unit["R"] * S
     fn = program(unit, hist)
     twins = {}
-    what = (f"FullyShard S={S}" if unit["kind"] == "fully" else f"HybridShard mesh={unit['R']}x{S} trainers_per_group={unit['g']} comm={unit['comm']} communicate_params={unit['cp']}") + f" params={unit['pset']} hist={hist}" + (" [parameters halved in place between the steps]" if unit.get("perturb") else "") + (f" [mesh dimension names {unit['mesh_names']}]" if "mesh_names" in unit else "")
+    what = (f"FullyShard S={S}" if unit["kind"] == "fully" else f"HybridShard mesh={unit['R']}x{S} trainers_per_group={unit['g']} comm={unit['comm']} communicate_params={unit['cp']}") + f" params={unit['pset']} hist={hist}" + (" [parameters halved in place between the steps]" if unit.get("perturb") else "") + (f" [mesh dimension names {unit['mesh_names']}]" if "mesh_names" in unit else "") + (f" [parameter dtypes {unit['pdtypes']}]" if unit.get("pdtypes") else "")
 
     def check(s):
         import torch
